@@ -16,7 +16,7 @@ Section FindNextRefine.
   Hypothesis Hcnt : cnt < 2 ^ 62.
   Variable findOther : Z -> Z -> Z.
   Local Notation hand_other := (SorterSearch.pvFindOther count item eqf).
-  Hypothesis Hfo : forall rel o, hand_other (fun k => fwd idx (rel + k)) (cnt - rel) = Ok o ->
+  Hypothesis Hfo : forall rel o, 0 <= rel -> hand_other (fun k => fwd idx (rel + k)) (cnt - rel) = Ok o ->
     findOther (idx + rel) (cnt - rel) = idx + rel + o /\ 1 <= o.
 
   Lemma other_pos v n o : hand_other v n = Ok o -> 0 < n.
@@ -36,7 +36,7 @@ Section FindNextRefine.
     induction f as [|f IH]; intros rel r b Hrel Hh; [simpl in Hh; discriminate|].
     cbn [SorterSearch.fn_loop] in Hh. rewrite pvFindNext_loop0_eq.
     destruct (hand_other (fun k => fwd idx (rel + k)) (cnt - rel)) as [o| | |] eqn:Eo; try discriminate. cbn [bind] in Hh.
-    pose proof (other_pos _ _ _ Eo) as Hpos. destruct (Hfo rel o Eo) as [Efo Ho]. cbv zeta in Hh |- *.
+    pose proof (other_pos _ _ _ Eo) as Hpos. destruct (Hfo rel o Hrel Eo) as [Efo Ho]. cbv zeta in Hh |- *.
     replace (idx + rel - idx) with rel by lia. rewrite (wrapU_small 64 (cnt - rel)) by lia. rewrite Efo.
     replace (idx + rel + o) with (idx + (rel + o)) by lia.
     destruct (Z.eqb_spec (rel + o) cnt) as [Ee|Ne].
